@@ -21,6 +21,8 @@ Lemma exists_eval a s : clean a -> fst (do_call None (Exists a) s) = if exists_f
 Proof. intros Ha. cbn [do_call]. unfold nat_call. cbn [ncall]. rewrite norm_of_clean by auto. reflexivity. Qed.
 Lemma exists_eval_norm a s : fst (do_call None (Exists a) s) = if exists_follow s (norm a) then ROk else RErr ENOENT.
 Proof. reflexivity. Qed.
+Lemma lexists_eval_norm a s : fst (do_call None (LExists a) s) = if lexists s (norm a) then ROk else RErr ENOENT.
+Proof. reflexivity. Qed.
 Lemma openr_file a s i : clean a -> names s a = Some (NFile i) -> fst (do_call None (OpenR a) s) = ROk.
 Proof.
   intros Ha Ea. cbn [do_call]. unfold nat_call. cbn [ncall]. rewrite norm_of_clean by auto. cbn [nat_ncall fst].
@@ -133,6 +135,11 @@ Proof.
     + rewrite E. destruct (names b p) as [[j| |t]|]; try congruence; try (exfalso; eapply Hb; reflexivity).
       apply IH. exact Hb.
     + rewrite E'. congruence.
+Qed.
+Lemma not_lexists_no_file b s p : dirs_added b s -> lexists b p = false -> forall q i, follow s p <> RFound q (NFile i).
+Proof.
+  intros Hd He q i. unfold lexists in He. destruct (names b p) eqn:E; [discriminate|].
+  destruct Hd as (H1 & _). unfold follow, LINK_FUEL. cbn [resolve]. destruct (H1 p) as [E1|[_ E1]]; rewrite E1, ?E; congruence.
 Qed.
 Lemma not_exists_no_file b s p : dirs_added b s -> exists_follow b p = false -> forall q i, follow s p <> RFound q (NFile i).
 Proof.
@@ -518,14 +525,14 @@ Section Move.
   Proof.
     intros Hd. unfold move_copy.
     apply safe_Do_query_eval; [reflexivity|apply A_P; auto|].
-    rewrite exists_eval_norm. fold tg. destruct (exists_follow st tg) eqn:Hex.
+    rewrite lexists_eval_norm. fold tg. destruct (lexists st tg) eqn:Hex.
     { cbn [safe]. split; [apply A_P; auto|apply A_QErr; auto]. }
     apply (mkdirs_of_safe (Pc c s) (Qc c s) st).
     - intros st' Hd'. apply A_P. eapply dirs_added_trans; eauto.
     - intros st' r w' nf' Hd'.
       assert (Hd2 : dirs_added s st') by (eapply dirs_added_trans; eauto).
       destruct r as [|e]; [|cbn [safe]; split; [apply A_P; auto|apply A_QErr; auto]].
-      pose proof (not_exists_no_file st st' tg Hd' Hex) as Hnf.
+      pose proof (not_lexists_no_file st st' tg Hd' Hex) as Hnf.
       (* the copy *)
       cbn [safe]. split; [apply A_P; auto|]. split.
       + intros m Hm. unfold mids in Hm. cbn [ncall] in Hm. rewrite (norm_of_clean src) in Hm by auto. fold tg in Hm.
